@@ -5,7 +5,7 @@ import Gpc.Model.Scratch
 namespace Gpc.Driver
 open Gpc.Proto Gpc.CaseFull Gpc.Utf
 
-def locOf (s : String) : Loc := if s == "-" then .n else Loc.ofCode (s.toList.map fun c => UInt8.ofNat c.toNat)
+def locOf (s : String) : Loc := if s == "-" || s == "null" then .n else Loc.ofCode (s.toList.map fun c => UInt8.ofNat c.toNat)
 
 def encAll (cps : List Nat) : List UInt8 := cps.flatMap encodeU8
 
